@@ -32,12 +32,12 @@ theorem lookup_filter (l : List (SessKey × Session)) (p : SessKey → Bool) (ke
     obtain ⟨k0, s0⟩ := x
     by_cases hp : p k0 = true
     · by_cases h0 : k0 = key
-      · subst h0; simp [List.filter_cons, hp, lookupSess]
-      · simp [List.filter_cons, hp, lookupSess, h0, ih]
+      · subst h0; simp [hp, lookupSess]
+      · simp [hp, lookupSess, h0, ih]
     · have hp' : p k0 = false := by simpa using hp
       by_cases h0 : k0 = key
-      · subst h0; simp [List.filter_cons, hp', lookupSess, ih]
-      · simp [List.filter_cons, hp', lookupSess, h0, ih]
+      · subst h0; simp [hp', ih]
+      · simp [hp', lookupSess, h0, ih]
 
 theorem lookup_eraseSess (l : List (SessKey × Session)) (key key' : SessKey) :
     lookupSess (eraseSess l key) key' = if key' = key then none else lookupSess l key' := by
@@ -87,10 +87,6 @@ theorem credit_spec {w w' : World} {to : Option Acct} {amt : Coins} (h : credit 
       · cases h
         refine ⟨hv', rfl, rfl, rfl, fun x d => ?_⟩
         by_cases hx : x = a <;> simp [hx]
-
-theorem setSess_world_spec (w : World) (key : SessKey) (s : Session) :
-    ({ w with sess := setSess w.sess key s } : World).now = w.now ∧
-    ({ w with sess := setSess w.sess key s } : World).bal = w.bal := ⟨rfl, rfl⟩
 
 /-- the hook either does nothing or runs `DeductSessionSpend` on the session the account signed through -/
 theorem hookDeduct_spec {auth : List (Nat × Nat)} {w w' : World} {a : Acct} {amt : Coins}
